@@ -25,6 +25,7 @@ func init() {
 		EnumRule:    "obligations per rule and construct (Go use site / assembly instruction)",
 		Assumptions: []string{"XCHG with a memory operand is atomic and a full barrier on amd64; sync/atomic functions are atomic", "liveness and the memory model beyond 'all accesses are atomic' are not decided"},
 		Controls: []Control{
+			{Name: "dirty read compares eight bytes", File: "kernel/sync/spinlock_amd64.s", Old: "\tMOVL 0(AX), BX\n\tTESTL BX, BX\n\tJZ try_acquire\n", New: "\tCMPQ 0(AX), $0\n\tJEQ try_acquire\n", Expect: "C08.R3"},
 			{Name: "plain store in Release", File: "kernel/sync/spinlock.go", Old: "\tatomic.StoreUint32(&l.state, 0)", New: "\tl.state = 0", Expect: "C08.R"},
 			{Name: "!= 0 in TryToAcquire", File: "kernel/sync/spinlock.go", Old: "return atomic.SwapUint32(&l.state, 1) == 0", New: "return atomic.SwapUint32(&l.state, 1) != 0", Expect: "C08.R2"},
 			{Name: "MOVL instead of XCHGL", File: "kernel/sync/spinlock_amd64.s", Old: "\tXCHGL 0(AX), BX\n", New: "\tMOVL 0(AX), DX\n\tMOVL BX, 0(AX)\n\tMOVL DX, BX\n", Expect: "C08.R3"},
